@@ -33,6 +33,7 @@ M = {
     "redundant-mask-swapped": ("pyrefact/fixes.py", "mask.append(truthy if deterministic_value else falsy)", "mask.append(falsy if deterministic_value else truthy)"),
     "compare-fold-negated": ("pyrefact/symbolic_math.py", "        yield node, ast.Constant(value=value, kind=None)\n\n\n@processing.fix\ndef simplify_boolean_expressions_symmath", "        yield node, ast.Constant(value=not value, kind=None)\n\n\n@processing.fix\ndef simplify_boolean_expressions_symmath"),
     "revert-F15-5-self-eq": ("pyrefact/symbolic_math.py", "                and not core.has_side_effect(node.left, constants.SAFE_CALLABLES)\n", ""),
+    "revert-F15-10-len-as-sum": ("pyrefact/symbolic_math.py", '        if node.func.id != "sum":\n            # len() of a collection', '        if False:\n            # len() of a collection'),
     "comprehension-if-inverted": ("pyrefact/fixes.py", "                if not value:\n                    # Condition is always False, so the whole comprehension is dead", "                if value:\n                    # Condition is always False, so the whole comprehension is dead"),
 }
 
